@@ -731,6 +731,8 @@ PAR_SRCS = [
     'del(a), b', 'x = {**(a)}', 'x = f(*(a))', 'x = f(k=(a))', 'x = s[(a):(b)]', 'match s:\n    case (1) | (2): pass', 'match s:\n    case (a): pass',
     'match s:\n    case C((1)): pass', 'x = (a)if(b)else(c)', 'é = "é" if(é)else(ü)', 'raise(a)from(b)', 'x = (-a) ** (-b)', 'x = (a if b else c) if d else e',
     'x = i for_ in_ y' if False else 'x = (i for i in y)', 'print((a)if b else(c))', 'async def f():\n    await(a)',
+    # fields DERIVED from the layout: AnnAssign.simple is 1 only for an unparenthesised Name target
+    '(a): int = 1', 'a: int = 1', '(a): int', 'a: int', 'a.b: int = 1', '((a)): int = 1', 'class C:\n    (é): "é" = 1',
 ]
 PAR_FOLLOW = ['lambda: 1', 'p if q else r', 'zz', 'a, b', 'yield', 'v := 1', '"é"', 'not q']
 PAR_FOLLOW_PAT = ['1 | 2', 'zz', 'p as q', '"é"']
@@ -755,7 +757,7 @@ def run_par_case(case):
             for fi, follow in enumerate((PAR_FOLLOW_PAT if is_pat else PAR_FOLLOW) + [None]):
                 root = FST(src, 'exec')
                 node = list(root.walk(True))[k]
-                if not isinstance(getattr(node.a, 'ctx', ast.Load()), ast.Load):
+                if not isinstance(getattr(node.a, 'ctx', ast.Load()), ast.Load) and not (node.parent and isinstance(node.parent.a, ast.AnnAssign)):
                     break
                 rec = {'case': list(case), 'src': src, 'cls': node.a.__class__.__name__, 'field': first, 'op': f'{first}+{follow}', 'node': k, 'fi': fi}
                 try:
@@ -776,7 +778,7 @@ def run_par_case(case):
                     res.append(rec)
                     break
                 d = _judge(root)
-                if d and 'unpar' in first and not d.startswith('positions'):
+                if d and ('unpar' in first or first == 'par-force') and not d.startswith('positions'):
                     rec['unparsable_accessor'] = True       # unpar() may be asked to remove NEEDED parentheses (documented, the caller's
                     res.append(rec)                         # request): a regrouped / unparsable result is not judged, positions are
                     break
@@ -933,6 +935,95 @@ def opt_signature(rec):
 
 def replay_opt(rec):
     for r in run_opt_case(tuple(rec['case']), only=(rec['vi'], rec['var'], rec['op'])):
+        if 'fail' in r:
+            return r['fail']
+    return None
+
+
+# ---- ADDING an optional child that is absent, where the neighbours contain the very characters the put searches for -----------
+# (source, node class, field, values)
+_EV = ['zz', 'é', 'p if q else r', '"#"']
+ADD_SLOTS = [
+    ('def f(a, b=k**2, *, c=1, **kw): pass', 'arguments', 'vararg', ['rest', 'é', 'r: int']), ('def f(a: "*", *, c): pass', 'arguments', 'vararg', ['rest']),
+    ('def f(a=2*3, *, b): pass', 'arguments', 'vararg', ['rest', 'é']), ('lambda a=2*3, *, b: 0', 'arguments', 'vararg', ['rest']),
+    ('def f(p=x*y, /, *, b): pass', 'arguments', 'vararg', ['rest']), ('def f(*, b): pass', 'arguments', 'vararg', ['rest']),
+    ('def f(a, /, *, b="*"): pass', 'arguments', 'vararg', ['rest']), ('def f(a, b="**"): pass', 'arguments', 'kwarg', ['kw', 'é: dict']),
+    ('def f(a, *b, c="**", d=x**y): pass', 'arguments', 'kwarg', ['kw']), ('lambda a, b=x**y: 0', 'arguments', 'kwarg', ['kw']),
+    ('def f(a, b=2*3): pass', 'arguments', 'vararg', ['rest']), ('def f(*, b: "=", c): pass', 'arguments', 'kw_defaults[0]', _EV),
+    ('def f(*, b: x[y:z], c=1): pass', 'arguments', 'kw_defaults[0]', _EV), ('lambda *, b, c="=": 0', 'arguments', 'kw_defaults[0]', ['zz']),
+    ('def f(a=")", b="->") : pass', 'FunctionDef', 'returns', _EV), ('def f(a=x[1:2], b={1: 2}) \\\n : pass', 'FunctionDef', 'returns', _EV),
+    ('async def f(a: ")->" = (1)):pass', 'AsyncFunctionDef', 'returns', _EV), ('def f(a = ",", b: x[1:2] = {1: 2}): pass', 'arg', 'annotation', _EV),
+    ('def f(a="):", *b, c): pass', 'arg', 'annotation', _EV), ('lambda: 0\nx[a:b]', 'Slice', 'step', _EV), ('x["a:":]', 'Slice', 'upper', _EV),
+    ('x[a["::"]:]', 'Slice', 'upper', _EV), ('x[:b[c:d]]', 'Slice', 'lower', _EV), ('x[::]', 'Slice', 'lower', _EV), ('x[:: s]', 'Slice', 'upper', _EV),
+    ('raise e("from")', 'Raise', 'cause', _EV), ('raise', 'Raise', 'exc', _EV), ('assert t("a,b"), ', None, None, None),
+    ('assert t("a,b")', 'Assert', 'msg', _EV), ('assert (t, u)', 'Assert', 'msg', _EV), ('with a("as") : pass', 'withitem', 'optional_vars', ['zz', 'é', '(p, q)']),
+    ('with (a, b("as")): pass', 'withitem', 'optional_vars', ['zz']), ('with (a): pass', 'withitem', 'optional_vars', ['zz']),
+    ('async def f():\n    async with a, (b) : pass', 'withitem', 'optional_vars', ['zz']), ('x: "= 1"', 'AnnAssign', 'value', _EV),
+    ('x: d["="]  # = c', 'AnnAssign', 'value', _EV), ('(x): int', 'AnnAssign', 'value', _EV), ('def f():\n    return  # c', 'Return', 'value', _EV),
+    ('def f():\n    return;', 'Return', 'value', _EV), ('def f():\n    x = yield', 'Yield', 'value', _EV), ('def f():\n    x = (yield)', 'Yield', 'value', _EV),
+    ('class A[T, U: "T:"]: pass', 'TypeVar', 'bound', ['int', 'é', '(p, q)']), ('def f[T](a: "T:"): pass', 'TypeVar', 'bound', ['int']),
+    ('type A[T] = x["T:"]', 'TypeVar', 'bound', ['int']), ('try: pass\nexcept: pass', 'ExceptHandler', 'type', ['E', '(E, F)', 'é']),
+    ('try: pass\nexcept : pass  # :', 'ExceptHandler', 'type', ['E']), ('match s:\n    case "if": pass', 'match_case', 'guard', _EV),
+    ('match s:\n    case {"k:": v} : pass', 'match_case', 'guard', _EV), ('match s:\n    case x if_: pass' if False else 'match s:\n    case [a, b]:pass', 'match_case', 'guard', _EV),
+    ('z = {a: b, **c}', 'Dict', 'keys[1]', ['zz', '"é"', '(p)', 'p if q else r']), ('z = {**c}', 'Dict', 'keys[0]', ['zz']),
+    ('z = {**c, "**": d}', 'Dict', 'keys[0]', ['zz']), ('z = {a: "**", ** c}', 'Dict', 'keys[1]', ['zz']),
+]
+ADD_SLOTS = [a for a in ADD_SLOTS if a[1]]
+ADD_FOLLOW = [None, 'none', 'replace']
+
+
+def add_cases():
+    return [('a', i) for i in range(len(ADD_SLOTS))]
+
+
+def run_add_case(case, only=None):
+    from fst import FST
+    tmpl, cls, field, values = ADD_SLOTS[case[1]]
+    res = []
+    for var in ('ascii', 'mb', 'nest'):
+        src = _opt_src(tmpl, '', var)
+        if src is None:
+            continue
+        for vi, v in enumerate(values):
+            for fi, follow in enumerate(ADD_FOLLOW):
+                if only and (var, vi, fi) != only:
+                    continue
+                try:
+                    root = FST(src, 'exec')
+                except Exception as e:
+                    res.append({'case': list(case), 'setup_error': repr(e)[:120]})
+                    break
+                node = next((f for f in root.walk(True) if f.a.__class__.__name__ == cls and _opt_get(f.a, field) is None
+                             and (not field.endswith(']') or len(getattr(f.a, field.split('[')[0])) > int(field[:-1].split('[')[1]))), None)
+                if node is None:
+                    res.append({'case': list(case), 'setup_error': f'no {cls} with absent {field} in {src!r}'})
+                    break
+                rec = {'case': list(case), 'src': src, 'cls': cls, 'field': field, 'op': f'add+{follow}', 'vi': vi, 'var': var, 'fi': fi, 'value': v}
+                steps = [('replace', v)] + ([('set-none', None)] if follow == 'none' else [('replace', 'yy')] if follow == 'replace' else [])
+                for si, (how, value) in enumerate(steps):
+                    try:
+                        with FST.options(norm=True):
+                            _opt_put(node, field, value, how)
+                    except Exception as e:
+                        rec['raised'] = f'{si}:{type(e).__name__}'
+                        break
+                    d = _judge(root)
+                    if d:
+                        rec['fail'] = d
+                        rec['step'] = si
+                        break
+                rec['after'] = root.src
+                res.append(rec)
+    return res
+
+
+def add_signature(rec):
+    cls = 'no-parse' if rec['fail'].startswith('source no longer parses') else ('structure' if rec['fail'].startswith('structure') else 'positions')
+    return f"C01|add|{rec['cls']}.{rec['field']}|{rec['op']}@{rec['step']}/{rec['case'][1]}.{rec['vi']}{rec['var'][0]}|{cls}"
+
+
+def replay_add(rec):
+    for r in run_add_case(tuple(rec['case']), only=(rec['var'], rec['vi'], rec['fi'])):
         if 'fail' in r:
             return r['fail']
     return None
